@@ -104,6 +104,9 @@ func (e *EventEmitter) handleSubscriber(ctx context.Context, sub event.Subscript
 	cevent := make(chan Event, 16)
 	condProcess := sync.NewCond(&sync.Mutex{})
 	queue := list.New()
+	// inflight is true while the second goroutine is sending an event it took
+	// from the queue (protected by condProcess.L)
+	inflight := false
 	wg := sync.WaitGroup{}
 
 	wg.Add(1)
@@ -125,7 +128,7 @@ func (e *EventEmitter) handleSubscriber(ctx context.Context, sub event.Subscript
 			}
 
 			condProcess.L.Lock()
-			if queue.Len() == 0 {
+			if queue.Len() == 0 && !inflight {
 				// try to push event to the queue
 				select {
 				case cevent <- e:
@@ -155,6 +158,8 @@ func (e *EventEmitter) handleSubscriber(ctx context.Context, sub event.Subscript
 			}
 
 			e := queue.Remove(queue.Front())
+			// until e is sent, later events must not overtake it
+			inflight = true
 
 			// Unlock cond mutex while sending the event
 			condProcess.L.Unlock()
@@ -166,6 +171,7 @@ func (e *EventEmitter) handleSubscriber(ctx context.Context, sub event.Subscript
 			}
 
 			condProcess.L.Lock()
+			inflight = false
 		}
 		condProcess.L.Unlock()
 
